@@ -365,7 +365,7 @@ CATALOG: List[Cfg] = [
        keys_quick=2, keys_thorough=4, time_limit=3),
     # THREE agents (two nodes each) on 9 nodes: 729 joint actions, three-way ties and blocks by several agents
     _c("mmst-9x3-T3", "mmst", "MMST(G.mmst.SplitRandomGenerator(9, 12, 4, 3, 2, 3), time_limit=3)", kind="awkward",
-       keys_quick=2, keys_thorough=4, time_limit=3, max_states_quick=6000, ref_states_quick=6000,
+       keys_quick=6, keys_thorough=12, time_limit=3, max_states_quick=20000, ref_states_quick=20000,
        max_states_thorough=20_000),
     _c("mmst-default", "mmst", "MMST()", kind="default", depth=1, keys_quick=1, keys_thorough=1,
        time_limit=70, quick=False),
